@@ -1120,13 +1120,17 @@ def shim_selftest(scratch, shimdir):
 def run(ctx, drv):
     ctx.rule = ("CLI stream: random code bases (2-4 platforms, 3-10 files incl. a probe file sensitive to the value of every "
                 "macro, commands with repeated -D, duplicates pool, sometimes a symlink) x schedules (PYTHONHASHSEED, "
-                "os.scandir/os.listdir shuffle seed, file creation order, [platform.*] order); every schedule is compared with "
+                "os.scandir/os.listdir shuffle seed, file creation order, [platform.*] order); code bases also contain the same header name in two or "
+                "three -I/-isystem directories, a header only some platforms can resolve, aliases whose extension belongs to another language "
+                "family, cross-directory symbolic links, hard-linked names plus a byte-identical copy, platform names that differ only in case; "
+                "every schedule is compared with "
                 "schedule 0. Table stream: setmaps over 2-7 platforms (all tables over 2 platforms with counts {absent,1,2} "
                 "exhaustively; random ones incl. totals on x.xx5 rounding boundaries) x shuffled dict/frozenset construction "
                 "orders, in process. Hash-seed stream: the same kind of tables evaluated in fresh interpreters under 8/32 hash "
                 "seeds, values compared as float.hex. Analysis stream: finder.find + get_setmap in process under permuted "
                 "platform order and shuffled os.scandir, plus attribution = union of single-platform analyses. Modes stream: "
-                "user compilers with 2-4 modes. Non-trivial = distinct code bases whose table has >= 2 non-empty platform sets "
+                "user compilers with 2-4 modes; passes stream: a user compiler whose options select passes (list defaults with and without override), 2-4 "
+                "platforms, permuted [platform.*] order. Non-trivial = distinct code bases whose table has >= 2 non-empty platform sets "
                 "and a defined divergence, distinct tables with a tie in set size and >= 2 platforms, distinct conflicting mode "
                 "configurations.")
     ctx.extra["evidence_label"] = "partial (theorems: all orders of the modelled pipeline; runtime and third-party iteration orders: sampled)"
